@@ -2082,6 +2082,35 @@ class _MaskedArray:
     def count(self):
         return s_sum([SI.lift(mkbool(bnot(bt(f)))) if isinstance(f, SB) else int(not f) for f in self.mask.flat_values()])
 
+    # plain NumPy functions are not mask-aware: they see the underlying data (np.median(masked) uses every cell) ...
+    def _sx_array_(self):
+        return self.data
+
+    def __len__(self):
+        return len(self.data)
+
+    @property
+    def size(self):
+        return self.data.size
+
+    @property
+    def ndim(self):
+        return self.data.ndim
+
+    def compressed(self):
+        return self.data[~self.mask]
+
+    # ... the methods are
+    def _sel(self):
+        return self.data[~self.mask]
+
+    def mean(self, *a, **k): return self._sel().mean()
+    def sum(self, *a, **k): return self._sel().sum()
+    def max(self, *a, **k): return self._sel().max()
+    def min(self, *a, **k): return self._sel().min()
+    def std(self, *a, **k): return self._sel().std()
+    def var(self, *a, **k): return self._sel().var()
+
 
 ma = _Ma()
 
